@@ -179,7 +179,7 @@ func cmdCheck(args []string) int {
 		return nil
 	}
 	knownSeen := map[string]bool{}
-	nProved, nKnown := 0, 0
+	nProved, nKnown, nKnownBounded := 0, 0, 0
 	var solverTime float64
 	bySolver := map[string]int{}
 	byKind := map[string]int{}
@@ -257,7 +257,7 @@ func cmdCheck(args []string) int {
 			if k := isKnown(name); k != nil {
 				fmt.Printf("KNOWN-FINDING: property=%s %s %s\n", id, name, k.What)
 				knownSeen[name] = true
-				nKnown++
+				nKnownBounded++
 			} else {
 				report(name, fmt.Sprint(br["replay"]), "")
 			}
@@ -281,8 +281,8 @@ func cmdCheck(args []string) int {
 	}
 	total := len(all)
 	fmt.Printf("%s [%s]: %d obligations, %d discharged, %d known findings, %d violations, solver time %.1fs, wall %.1fs\n",
-		id, tier, total, nProved, nKnown, violations, solverTime, time.Since(t0).Seconds())
-	stats := map[string]any{"by_solver": bySolver, "by_kind": byKind, "solver_time_s": solverTime, "known_findings": nKnown, "proved": nProved, "total": total, "bounded": bounded, "slowest": slow}
+		id, tier, total, nProved, nKnown+nKnownBounded, violations, solverTime, time.Since(t0).Seconds())
+	stats := map[string]any{"by_solver": bySolver, "by_kind": byKind, "solver_time_s": solverTime, "known_findings": nKnown, "known_findings_bounded": nKnownBounded, "proved": nProved, "total": total, "bounded": bounded, "slowest": slow}
 	writeEvidence(verifDir, id, tier, seed, results, all, covers, time.Since(t0).Seconds(), violations, &spec, stats, eng)
 	if violations > 0 {
 		return 1
